@@ -76,6 +76,11 @@ CHECKS["C09"] = ("exploration",
          "4.C09", "generated grammars with deliberately overlapping expectations (seeded proptest choice streams) x exact automaton predicate + metamorphic (|| -> |) oracle executed in bash",
          "trusted: automata library (label-erased canonical forms), reference interpreter; known finding F-permuted-twin-words is classified by its signature (two different within-word automata with equal word languages at one state) and has a witness")
 
+CHECKS["C07"] = ("exploration",
+         "Generated literals, word prefixes and descriptions over the whole admitted character set, biased to dangerous combinations, placed at top level and inside a word: (A) for all four shells every literal array and description constant of the emitted script is decoded with an independent implementation of that shell's double-quote rules and must give back exactly the grammar's text, with no active expansion and a well-formed statement; (B) in bash: bash -n, candidates, identical words and generated near misses (globs, changed characters, would-be expansions) are compared character for character with the reference interpreter, and no canary file may appear.",
+         "4.C07", "generated strings (seeded proptest choice streams) x round-trip oracle through independent per-shell string lexers + execution in bash against the reference interpreter",
+         "trusted: the per-shell double-quote rules as implemented in strconst.rs (bash manual 3.1.2.3, fish 'Quotes', zshmisc 'Quoting', PowerShell specification 2.3.5.2); fish/zsh/pwsh are not executed")
+
 NOT_YET = {
 }
 
